@@ -665,16 +665,18 @@ Section Exact.
   (* ---------------------------------------------------------------- the extra invariant
      (empty cutset during compilation; nodes are exact-flagged as long as nothing was squashed /
       for the non-relaxed compilations; layers are closed; the layer designated by m_lel is exact) *)
-  Record Xinv (m : mdd) : Prop := {
+  Record Xg (bound : nat) (m : mdd) : Prop := {
     X_cutset : m_cutset m = [];
     X_exact_nr : ci_type inp <> Relaxed ->
                  forall id, id < length (m_nodes m) -> fl_is_exact (n_flags (gn m id)) = true;
     X_lel_none : m_lel m = None ->
                  forall id, id < length (m_nodes m) -> fl_is_exact (n_flags (gn m id)) = true;
     X_lel_lt : ci_type inp = Relaxed -> forall k, m_lel m = Some k -> k < length (m_layers m);
-    X_layers : forall ids id, In ids (m_layers m) -> In id ids -> id < m_layer_end m;
+    X_layers : forall ids id, In ids (m_layers m) -> In id ids -> id < bound;
     X_lel_some : forall k ids id, m_lel m = Some k -> nth_error (m_layers m) k = Some ids -> In id ids ->
                  fl_is_exact (n_flags (gn m id)) = true }.
+  Definition Xinv (m : mdd) : Prop := Xg (m_layer_end m) m.   (* during the compilation: layers are closed *)
+  Definition Xs (m : mdd) : Prop := Xg (length (m_nodes m)) m. (* afterwards: layers are in range *)
 
   Lemma Xinv_ceq m m' : ceq m m' -> Xinv m -> Xinv m'.
   Proof.
@@ -846,8 +848,8 @@ Section Exact.
       { apply Xinv_snoc_node; auto. intros Hor. unfold n. nsimpl. rewrite fl_is_exact_set_exact. simpl.
         rewrite andb_true_r.
         destruct Hor as [Hor|Hor].
-        - apply (X_exact_nr _ HX Hor). exact Hfromlen.
-        - apply (X_lel_none _ HX Hor). exact Hfromlen. }
+        - apply (X_exact_nr _ _ HX Hor). exact Hfromlen.
+        - apply (X_lel_none _ _ HX Hor). exact Hfromlen. }
       assert (HD3 : Dinv m3).
       { apply append_edge_Dg; unfold e; nsimpl; auto; try lia.
         - intros x. rewrite Hgn2new. simpl. tauto.
@@ -1254,6 +1256,33 @@ Section Exact.
   Lemma hd_In {A} (d : A) l : l <> [] -> In (hd d l) l.
   Proof. destruct l; [congruence|simpl; auto]. Qed.
 
+  Lemma relax_core_inv (m2 : mdd) (merged : St) (merged_id : nat) (mrg : list nat) :
+    Dinv m2 -> Xinv m2 -> ci_type inp = Relaxed -> m_lel m2 <> None ->
+    (forall x, In x mrg -> x < length (m_nodes m2)) ->
+    m_layer_end m2 <= merged_id -> merged_id < length (m_nodes m2) ->
+    let m4 := fold_left (fun m drop_id =>
+                 redirect_edges inp
+                   (upd_node m drop_id (fun n => set_flags n (fl_set_deleted (n_flags n) true)))
+                   merged merged_id drop_id) mrg
+                (upd_node m2 merged_id (fun n => set_flags n (fl_set_relaxed (n_flags n) true))) in
+    Dinv m4 /\ Xinv m4 /\ stable m2 m4 /\ m_next m4 = m_next m2 /\ length (m_nodes m4) = length (m_nodes m2).
+  Proof.
+    intros HD HX Ht Hlel Hmrg Hle Hlt.
+    destruct (set_relaxed_inv m2 merged_id HD HX Ht Hlel Hle Hlt) as (R1 & R2 & R3 & R4 & R5).
+    set (m3 := upd_node m2 merged_id (fun n => set_flags n (fl_set_relaxed (n_flags n) true))) in *.
+    assert (Hlen3 : length (m_nodes m3) = length (m_nodes m2)) by (unfold m3; msimpl; apply upd_nth_length).
+    pose proof (relax_fold_inv merged merged_id mrg m3 R1 R2) as G. cbv zeta in G.
+    destruct G as (G1 & G2 & G3 & G4 & G5).
+    - intros x Hx. rewrite Hlen3. apply Hmrg; exact Hx.
+    - exact Hle.
+    - rewrite Hlen3. exact Hlt.
+    - exact R5.
+    - cbv zeta. split; [exact G1|]. split; [exact G2|]. split; [|split].
+      + eapply stable_trans; eauto.
+      + rewrite G4. exact R4.
+      + rewrite G5. exact Hlen3.
+  Qed.
+
   Lemma relax_layer_inv (m : mdd) (l : list nat) (d : nat) :
     Dinv m -> Xinv m -> ci_type inp = Relaxed -> m_layers m <> [] ->
     layer_ok m l d -> ci_width inp < length l ->
@@ -1266,6 +1295,7 @@ Section Exact.
     destruct (note_squash_inv m HD HX) as (N1 & N2 & N3 & N4 & N5 & N6); [auto|].
     set (m0 := note_squash inp m) in *.
     set (sorted := sort_by (rank_order inp m0) l).
+    assert (Hsorted : forall x, In x sorted -> In x l) by (intros x Hx; apply sort_by_In in Hx; exact Hx).
     destruct (ci_width inp) as [|w1] eqn:Ew.
     - simpl fst. simpl snd.
       assert (Hc : ceq m0 (set_crash m0)) by apply ceq_set_crash.
@@ -1278,7 +1308,680 @@ Section Exact.
       set (mstates := map (fun id => n_state (gn m0 id)) mrg).
       set (merged := merge (ci_relax inp) mstates).
       set (m1 := add_log m0 (EvMerge mstates merged)).
-      Show.
-  Abort.
-(*PART8*)
+      assert (Hc1 : ceq m0 m1) by apply ceq_add_log.
+      assert (HD1 : Dinv m1) by (eapply Dg_ceq; eauto).
+      assert (HX1 : Xinv m1) by (eapply Xinv_ceq; eauto).
+      assert (Hst1 : stable m m1) by (eapply stable_trans; [exact N3|apply ceq_stable; exact Hc1]).
+      assert (Hl1 : layer_ok m1 l d) by (eapply layer_ok_stable; eauto; apply incl_refl).
+      assert (Hkeep : forall x, In x keep -> In x l) by (intros x Hx; apply In_firstn in Hx; auto).
+      assert (Hmrg : forall x, In x mrg -> In x l) by (intros x Hx; apply In_skipn in Hx; auto).
+      assert (Hmrg1 : forall x, In x mrg -> x < length (m_nodes m1)).
+      { intros x Hx. apply Hmrg in Hx. apply Hl1 in Hx. lia. }
+      destruct (find (fun id => st_eqb (n_state (gn m1 id)) merged) keep) as [rid|] eqn:Hrec.
+      + (* the merged state is the state of a kept node *)
+        apply find_some in Hrec. destruct Hrec as [Hin _]. apply Hkeep in Hin.
+        destruct (Hl1 rid Hin) as [Hr _].
+        destruct (relax_core_inv m1 merged rid mrg HD1 HX1 Ht N5 Hmrg1) as (G1 & G2 & G3 & G4 & G5); [lia|lia|].
+        cbv zeta in G1, G2, G3, G4, G5.
+        cbv beta iota. cbn [fst snd].
+        match goal with |- Dinv (upd_node ?mm ?sv ?ff) /\ _ => set (m4 := mm) in *; set (saved := sv); set (f := ff) end.
+        assert (Hc : ceq m4 (upd_node m4 saved f)).
+        { apply ceq_upd_node. intros n. apply core_eq_set_flags_nc; reflexivity. }
+        assert (Hst : stable m (upd_node m4 saved f)).
+        { eapply stable_trans; [exact Hst1|]. eapply stable_trans; [exact G3|apply ceq_stable; exact Hc]. }
+        split; [eapply Dg_ceq; eauto|]. split; [eapply Xinv_ceq; eauto|]. split; [exact Hst|]. split.
+        * destruct Hc as (_ & Hn & _). rewrite Hn, G4. exact N4.
+        * eapply layer_ok_stable; eauto. intros x Hx. apply In_firstn in Hx. auto.
+      + (* a fresh merged node *)
+        cbv beta iota. cbn [fst snd].
+        set (n := {| n_state := merged; n_vtop := IMIN; n_vbot := IMIN; n_best := None; n_inb := [];
+                     n_rub := IMAX; n_theta := None; n_flags := fl_new_relaxed;
+                     n_depth := n_depth (gn m1 (hd 0 mrg)) |}).
+        set (m2 := with_nodes m1 (m_nodes m1 ++ [n])).
+        set (mid := length (m_nodes m1)).
+        assert (Hle1 : m_layer_end m1 <= mid) by apply (D_le _ _ HD1).
+        assert (Hlen2 : length (m_nodes m2) = S mid) by apply len_snoc.
+        assert (HD2 : Dinv m2).
+        { pose proof (Dg_snoc_node m1 n HD1) as [H1 H2 H3 H4 H5]. split; auto.
+          intros id Hid _. destruct (Nat.eq_dec id mid) as [->|Hne].
+          - split.
+            + unfold m2, mid. rewrite gn_snoc_new. simpl. tauto.
+            + unfold m2, mid. rewrite gn_snoc_new. unfold n. nsimpl. discriminate.
+          - apply H1; auto. }
+        assert (HX2 : Xinv m2).
+        { apply Xinv_snoc_node; auto. intros [Hor|Hor]; [congruence|]. exfalso. apply N5. exact Hor. }
+        assert (Hst2 : stable m1 m2) by (apply snoc_node_stable; exact Hle1).
+        assert (Hmrg2 : forall x, In x mrg -> x < length (m_nodes m2)).
+        { intros x Hx. apply Hmrg1 in Hx. rewrite Hlen2. unfold mid. lia. }
+        destruct (relax_core_inv m2 merged mid mrg HD2 HX2 Ht N5 Hmrg2) as (G1 & G2 & G3 & G4 & G5).
+        { exact Hle1. } { lia. }
+        cbv zeta in G1, G2, G3, G4, G5.
+        match goal with |- Dinv ?mm /\ _ => set (m4 := mm) in * end.
+        assert (Hst : stable m m4).
+        { eapply stable_trans; [exact Hst1|]. eapply stable_trans; [exact Hst2|exact G3]. }
+        split; [exact G1|]. split; [exact G2|]. split; [exact Hst|]. split.
+        * rewrite G4. exact N4.
+        * intros x Hx. apply in_app_or in Hx. destruct Hx as [Hx|[<-|[]]].
+          -- apply (layer_ok_stable m m4 l keep d Hst Hl); auto.
+          -- destruct Hst as (s1 & _). destruct G3 as (_ & _ & _ & g4).
+             destruct (g4 mid) as [_ Hdp]; [lia|].
+             rewrite s1, G5, Hlen2. destruct Hst1 as (t1 & _). rewrite t1 in Hle1.
+             split; [lia|]. rewrite Hdp. unfold m2, mid. rewrite gn_snoc_new. unfold n. nsimpl.
+             apply Hl1. apply Hmrg. apply hd_In. apply skipn_nonempty.
+             unfold sorted. rewrite sort_by_length. lia.
+  Qed.
+  Lemma squash_if_needed_inv (m : mdd) (l : list nat) (d : nat) :
+    Dinv m -> Xinv m -> layer_ok m l d ->
+    Dinv (fst (squash_if_needed st_eqb inp m l)) /\ Xinv (fst (squash_if_needed st_eqb inp m l)) /\
+    stable m (fst (squash_if_needed st_eqb inp m l)) /\
+    m_next (fst (squash_if_needed st_eqb inp m l)) = m_next m /\
+    layer_ok (fst (squash_if_needed st_eqb inp m l)) (snd (squash_if_needed st_eqb inp m l)) d.
+  Proof.
+    intros HD HX Hl. unfold squash_if_needed.
+    assert (Htriv : Dinv m /\ Xinv m /\ stable m m /\ m_next m = m_next m /\ layer_ok m l d).
+    { split; [exact HD|]. split; [exact HX|]. split; [apply stable_refl|]. split; [reflexivity|exact Hl]. }
+    destruct (ci_type inp) eqn:Et.
+    - exact Htriv.
+    - destruct (Nat.ltb (ci_width inp) (length l) && Nat.ltb 1 (length (m_layers m))) eqn:Eg; [|exact Htriv].
+      apply andb_true_iff in Eg. destruct Eg as [E1 E2].
+      apply Nat.ltb_lt in E1. apply Nat.ltb_lt in E2.
+      apply relax_layer_inv; auto. intros E. rewrite E in E2. simpl in E2. lia.
+    - destruct (Nat.ltb (ci_width inp) (length l)) eqn:Eg; [|exact Htriv].
+      assert (Hnr : ci_type inp <> Relaxed) by (rewrite Et; discriminate).
+      destruct (restrict_layer_inv m l HD HX Hnr) as (R1 & R2 & R3 & R4 & R5).
+      split; [exact R1|]. split; [exact R2|]. split; [exact R3|]. split; [exact R4|].
+      eapply layer_ok_stable; eauto.
+  Qed.
+
+  (* ---------------------------------------------------------------- Xg under path-equivalence and push_layer *)
+  Lemma Xg_peq b m m' :
+    peq m m' -> m_layers m' = m_layers m -> m_lel m' = m_lel m -> m_cutset m' = m_cutset m ->
+    Xg b m -> Xg b m'.
+  Proof.
+    intros (A1 & A2 & A3 & A4) Hly Hlel Hcs [X1 X2 X3 X4 X5 X6].
+    split.
+    - congruence.
+    - intros Ht id Hid. rewrite <- (core_eq_is_exact _ _ (A4 id)). apply X2; auto. lia.
+    - intros Hnone id Hid. rewrite <- (core_eq_is_exact _ _ (A4 id)). apply X3; auto; [congruence|lia].
+    - intros Ht k Hk. rewrite Hly. apply X4; auto. congruence.
+    - intros ids id H1 H2. rewrite Hly in H1. eapply X5; eauto.
+    - intros k ids id H1 H2 H3. rewrite <- (core_eq_is_exact _ _ (A4 id)).
+      rewrite Hlel in H1. rewrite Hly in H2. eapply X6; eauto.
+  Qed.
+
+  Lemma Xg_weaken b b' m : b <= b' -> Xg b m -> Xg b' m.
+  Proof.
+    intros Hb [X1 X2 X3 X4 X5 X6]. split; auto.
+    intros ids id H1 H2. specialize (X5 ids id H1 H2). lia.
+  Qed.
+
+  Lemma Xinv_Xs m : Dinv m -> Xinv m -> Xs m.
+  Proof. intros HD HX. eapply Xg_weaken; [|exact HX]. apply (D_le _ _ HD). Qed.
+
+  Lemma Xg_push_layer b (m : mdd) ids e :
+    Xg b m -> b <= length (m_nodes m) -> (forall id, In id ids -> id < b) -> Xg b (push_layer m ids e).
+  Proof.
+    intros [X1 X2 X3 X4 X5 X6] Hb Hids. split.
+    - exact X1.
+    - exact X2.
+    - exact X3.
+    - intros Ht k Hk. msimpl. rewrite app_length. specialize (X4 Ht k Hk). lia.
+    - intros ids0 id H1 H2. msimpl_in H1. apply in_app_or in H1. destruct H1 as [H1|[<-|[]]].
+      + eapply X5; eauto.
+      + apply Hids; exact H2.
+    - intros k ids0 id H1 H2 H3. msimpl_in H1. msimpl_in H2.
+      change (gn (push_layer m ids e) id) with (gn m id).
+      destruct (Nat.lt_ge_cases k (length (m_layers m))) as [Hk|Hk].
+      + rewrite nth_error_app1 in H2 by exact Hk. eapply X6; eauto.
+      + destruct (ci_type inp) eqn:Et.
+        * apply X2; [discriminate|].
+          apply nth_error_In in H2. apply in_app_or in H2. destruct H2 as [H2|[<-|[]]].
+          -- specialize (X5 _ _ H2 H3). lia.
+          -- specialize (Hids _ H3). lia.
+        * specialize (X4 eq_refl k H1). lia.
+        * apply X2; [discriminate|].
+          apply nth_error_In in H2. apply in_app_or in H2. destruct H2 as [H2|[<-|[]]].
+          -- specialize (X5 _ _ H2 H3). lia.
+          -- specialize (Hids _ H3). lia.
+  Qed.
+
+  (* ---------------------------------------------------------------- _move_to_next_layer (clean) *)
+  Lemma move_to_next_layer_clean_inv (m : mdd) (d : nat) :
+    Dinv m -> Xinv m -> next_depth d m ->
+    match snd (move_to_next_layer_clean st_eqb inp m) with
+    | None => Sinv (fst (move_to_next_layer_clean st_eqb inp m)) /\
+              Xs (fst (move_to_next_layer_clean st_eqb inp m)) /\
+              m_next (fst (move_to_next_layer_clean st_eqb inp m)) = []
+    | Some l => Dinv (fst (move_to_next_layer_clean st_eqb inp m)) /\
+                Xinv (fst (move_to_next_layer_clean st_eqb inp m)) /\
+                m_next (fst (move_to_next_layer_clean st_eqb inp m)) = [] /\
+                forall id, In id l ->
+                  id < m_layer_end (fst (move_to_next_layer_clean st_eqb inp m)) /\
+                  n_depth (gn (fst (move_to_next_layer_clean st_eqb inp m)) id) = d
+    end.
+  Proof.
+    intros HD HX Hnd. unfold move_to_next_layer_clean. cbv zeta.
+    set (ma := with_next m []).
+    assert (Hpa : peq m ma) by (apply peq_same_nodes; reflexivity).
+    destruct (m_next m) as [|c0 cs] eqn:En.
+    - cbn [fst snd].
+      assert (Hp : peq m (push_layer ma [] 0)) by (apply peq_same_nodes; reflexivity).
+      split; [|split].
+      + eapply Sinv_peq; [exact Hp| |apply Dinv_Sinv; exact HD]. intros id [].
+      + apply Xg_push_layer.
+        * eapply Xg_peq; [exact Hpa|reflexivity|reflexivity|reflexivity|]. change (Xs m). apply Xinv_Xs; auto.
+        * apply Nat.le_refl.
+        * intros id [].
+      + reflexivity.
+    - set (curr := c0 :: cs) in *.
+      assert (HDa : Dinv ma).
+      { eapply Dg_peq; [exact Hpa|exact HD|apply Nat.le_refl|apply (D_le _ _ HD)|]. intros id []. }
+      assert (HXa : Xinv ma) by (eapply Xg_peq; [exact Hpa|reflexivity|reflexivity|reflexivity|exact HX]).
+      assert (Hla : layer_ok ma curr d).
+      { intros id Hid. rewrite <- En in Hid. split; [apply (D_next _ _ HD id Hid)|apply Hnd; exact Hid]. }
+      assert (Hna : m_next ma = []) by reflexivity.
+      (* cache filter *)
+      assert (Hb : exists mb lb,
+                 (if Nat.ltb 0 (length (m_layers ma)) then filter_with_cache st_eqb inp ma curr else (ma, curr)) = (mb, lb)
+                 /\ ceq ma mb /\ incl lb curr).
+      { destruct (Nat.ltb 0 (length (m_layers ma))).
+        - destruct (filter_with_cache_ceq curr ma) as [I1 I2].
+          destruct (filter_with_cache st_eqb inp ma curr) as [mb lb]. exists mb, lb. auto.
+        - exists ma, curr. split; [reflexivity|]. split; [apply ceq_refl|apply incl_refl]. }
+      destruct Hb as (mb & lb & Eb & Hcb & Hib).
+      change (m_layers (with_next m [])) with (m_layers ma). rewrite Eb.
+      (* dominance filter *)
+      destruct (filter_with_dominance_ceq mb lb) as [Hcc Hic].
+      destruct (filter_with_dominance inp mb lb) as [mc lc]. cbn [fst snd] in Hcc, Hic.
+      assert (Hac : ceq ma mc) by (eapply ceq_trans; eauto).
+      assert (HDc : Dinv mc) by (eapply Dg_ceq; eauto).
+      assert (HXc : Xinv mc) by (eapply Xinv_ceq; eauto).
+      assert (Hlc : layer_ok mc lc d).
+      { eapply layer_ok_stable; [apply ceq_stable; exact Hac|exact Hla|]. eapply incl_tran; eauto. }
+      assert (Hnc : m_next mc = []) by (destruct Hac as (_ & Hn & _); rewrite Hn; exact Hna).
+      (* squash *)
+      destruct (squash_if_needed_inv mc lc d HDc HXc Hlc) as (Q1 & Q2 & Q3 & Q4 & Q5).
+      destruct (squash_if_needed st_eqb inp mc lc) as [md ld]. cbn [fst snd] in Q1, Q2, Q3, Q4, Q5.
+      cbn [fst snd].
+      set (from := m_layer_end md). set (to := length (m_nodes md)).
+      assert (Hft : from <= to) by apply (D_le _ _ Q1).
+      assert (Hp : peq md (push_layer md (seq from (to - from)) to)) by (apply peq_same_nodes; reflexivity).
+      split; [|split; [|split]].
+      + eapply Dg_peq; [exact Hp|exact Q1|exact Hft|apply Nat.le_refl|].
+        intros id Hid. msimpl_in Hid. rewrite Q4, Hnc in Hid. destruct Hid.
+      + apply Xg_push_layer.
+        * eapply Xg_weaken; [|exact Q2]. exact Hft.
+        * apply Nat.le_refl.
+        * intros id Hid. apply in_seq in Hid. msimpl. lia.
+      + msimpl. rewrite Q4. exact Hnc.
+      + intros id Hid. destruct (Q5 id Hid) as [Hr Hdp]. msimpl. split; [unfold to; lia|exact Hdp].
+  Qed.
+  (* ---------------------------------------------------------------- _initialize *)
+  Lemma initialize_inv c ds polls :
+    Dinv (initialize inp c ds polls) /\ Xinv (initialize inp c ds polls) /\
+    next_depth (sp_depth root) (initialize inp c ds polls).
+  Proof.
+    split; [|split].
+    - split.
+      + intros id Hid _. simpl in Hid. assert (id = 0) by lia. subst id. split.
+        * intros eid [].
+        * intros _. reflexivity.
+      + unfold root_ok. simpl. repeat split; auto.
+      + intros eid He. simpl in He. lia.
+      + simpl. lia.
+      + intros id [<-|[]]. simpl. lia.
+    - split.
+      + reflexivity.
+      + intros _ id Hid. simpl in Hid. assert (id = 0) by lia. subst id. reflexivity.
+      + intros _ id Hid. simpl in Hid. assert (id = 0) by lia. subst id. reflexivity.
+      + intros _ k Hk. discriminate.
+      + intros ids id [].
+      + intros k ids id Hk. discriminate.
+    - intros id [<-|[]]. reflexivity.
+  Qed.
+
+  (* ---------------------------------------------------------------- the layer loop *)
+  Lemma layer_loop_inv (fuel : nat) : forall (m : mdd),
+    Dinv m -> Xinv m -> (exists d, next_depth d m) ->
+    Sinv (fst (layer_loop st_eqb inp fuel m)) /\ Xs (fst (layer_loop st_eqb inp fuel m)).
+  Proof.
+    induction fuel as [|fuel IH]; intros m HD HX [d Hnd].
+    - simpl. split; [apply Dinv_Sinv; exact HD|apply Xinv_Xs; auto].
+    - cbn [layer_loop]. cbv zeta.
+      set (states := map (fun id => n_state (gn m id)) (m_next m)).
+      set (ov := next_variable (ci_problem inp) (m_curr_depth m) states).
+      set (m1 := add_log m (EvNextVar (m_curr_depth m) states ov)).
+      assert (Hc1 : ceq m m1) by apply ceq_add_log.
+      assert (HD1 : Dinv m1) by (eapply Dg_ceq; eauto).
+      assert (HX1 : Xinv m1) by (eapply Xinv_ceq; eauto).
+      destruct ov as [var|].
+      2: { cbn [fst]. split; [apply Dinv_Sinv; exact HD1|apply Xinv_Xs; auto]. }
+      set (m2 := with_polls m1 (S (m_polls m1))).
+      assert (Hc2 : ceq m1 m2) by apply ceq_with_polls.
+      assert (HD2 : Dinv m2) by (eapply Dg_ceq; eauto).
+      assert (HX2 : Xinv m2) by (eapply Xinv_ceq; eauto).
+      assert (Hnd2 : next_depth d m2) by exact Hnd.
+      destruct (Nat.ltb 0 (ci_cutoff inp) && Nat.leb (ci_cutoff inp) (m_polls m2)).
+      { cbn [fst]. split; [apply Dinv_Sinv; exact HD2|apply Xinv_Xs; auto]. }
+      rewrite not_pooled.
+      pose proof (move_to_next_layer_clean_inv m2 d HD2 HX2 Hnd2) as Hmv.
+      destruct (move_to_next_layer_clean st_eqb inp m2) as [m3 ol]. cbn [fst snd] in Hmv.
+      destruct ol as [l|].
+      2: { cbn [fst]. destruct Hmv as (M1 & M2 & _). auto. }
+      destruct Hmv as (M1 & M2 & M3 & M4).
+      assert (Hnd3 : next_depth (S d) m3) by (intros id Hid; rewrite M3 in Hid; destruct Hid).
+      destruct (expand_layer_inv var l d m3 M1 M2 Hnd3 M4) as (E1 & E2 & E3 & E4).
+      set (m4 := fold_left (expand_node st_eqb inp var) l m3) in *.
+      assert (Hc5 : ceq m4 (with_depth m4 (S (m_curr_depth m4)))) by apply ceq_with_depth.
+      apply IH.
+      + eapply Dg_ceq; eauto.
+      + eapply Xinv_ceq; eauto.
+      + exists (S d). exact E4.
+  Qed.
+
+  Lemma compile_loop_inv c ds polls m :
+    fst (layer_loop st_eqb inp (S (S (nb_vars pb))) (initialize inp c ds polls)) = m -> Sinv m /\ Xs m.
+  Proof.
+    intros <-. destruct (initialize_inv c ds polls) as (I1 & I2 & I3).
+    apply layer_loop_inv; auto. exists (sp_depth root). exact I3.
+  Qed.
+
+  (* ================================================================== 7. the theorems, on any diagram satisfying Sinv *)
+  Lemma fl_is_exact_not_relaxed fl : fl_is_exact fl = true -> f_relaxed fl = false.
+  Proof. unfold fl_is_exact. intros H. apply andb_true_iff in H. destruct H as [_ H]. destruct (f_relaxed fl); auto. Qed.
+
+  (* T1 *)
+  Lemma Sinv_exact_flag_clean_chain (m : mdd) :
+    Sinv m -> forall id, id < length (m_nodes m) ->
+    fl_is_exact (n_flags (gn m id)) = true -> clean_chain m id.
+  Proof.
+    intros HS id. induction id as [id IH] using lt_wf_ind. intros Hid Hex.
+    pose proof (fl_is_exact_not_relaxed _ Hex) as Hr.
+    destruct (S_nodes _ HS id Hid) as [_ Hb]. specialize (Hb Hr).
+    destruct (n_best (gn m id)) as [eid|] eqn:Eb.
+    - destruct Hb as (b1 & b2 & b3 & b4 & b5 & b6 & b7 & b8 & b9).
+      eapply cc_step; eauto. apply IH; auto. lia.
+    - subst id. apply cc_root; auto.
+  Qed.
+
+  (* T2 *)
+  Lemma Sinv_ebp_clean_chain (m : mdd) :
+    Sinv m -> forall fuel id, id < fuel -> id < length (m_nodes m) ->
+    has_exact_best_path inp fuel m (Some id) = true -> clean_chain m id.
+  Proof.
+    intros HS fuel. induction fuel as [|fuel IH]; intros id Hf Hid Hebp; [lia|].
+    cbn [has_exact_best_path] in Hebp.
+    destruct (fl_is_exact (n_flags (gn m id))) eqn:Hex.
+    - apply Sinv_exact_flag_clean_chain; auto.
+    - apply andb_true_iff in Hebp. destruct Hebp as [Hr Hrec].
+      apply negb_true_iff in Hr.
+      destruct (S_nodes _ HS id Hid) as [_ Hb]. specialize (Hb Hr).
+      destruct (n_best (gn m id)) as [eid|] eqn:Eb.
+      + destruct Hb as (b1 & b2 & b3 & b4 & b5 & b6 & b7 & b8 & b9).
+        simpl in Hrec. eapply cc_step; eauto. apply IH; auto; lia.
+      + subst id. apply cc_root; auto.
+  Qed.
+
+  (* T3 *)
+  Lemma Sinv_clean_chain_walk (m : mdd) :
+    Sinv m -> forall id, clean_chain m id -> forall fuel, id < fuel -> id < length (m_nodes m) ->
+    replay_sat (rev (walk_up inp fuel m (n_best (gn m id)))) (sp_state root) (sp_value root)
+      = Some (n_state (gn m id), n_vtop (gn m id)) /\
+    n_depth (gn m id) = sp_depth root + length (walk_up inp fuel m (n_best (gn m id))).
+  Proof.
+    intros HS id Hcc. induction Hcc as [Hr Hb|id eid Hr Hb Hcc IH]; intros fuel Hf Hid.
+    - rewrite Hb. destruct (S_root _ HS) as (r1 & r2 & r3 & r4 & r5).
+      destruct fuel; simpl; rewrite r2, r3, r4; split; auto.
+    - destruct (S_nodes _ HS id Hid) as [_ Hok]. specialize (Hok Hr). rewrite Hb in Hok.
+      destruct Hok as (b1 & b2 & b3 & b4 & b5 & b6 & b7 & b8 & b9).
+      destruct fuel as [|fuel]; [lia|].
+      rewrite Hb. cbn [walk_up].
+      set (e := get_edge m eid) in *. set (p := e_from e) in *.
+      destruct (IH fuel) as [IH1 IH2]; [lia|lia|].
+      split.
+      + cbn [rev]. rewrite replay_sat_app. rewrite IH1. cbn [replay_sat].
+        rewrite b6. rewrite <- b4. rewrite <- b5. rewrite <- b7. reflexivity.
+      + cbn [length]. rewrite b8, IH2. lia.
+  Qed.
+  (* ================================================================== 6. _finalize preserves the paths *)
+  (* [keq]: same core, same next layer, same best nodes, same cutset *)
+  Definition keq (m m' : mdd) : Prop :=
+    peq m m' /\ m_next m' = m_next m /\ m_best m' = m_best m /\ m_best_exact m' = m_best_exact m /\
+    m_cutset m' = m_cutset m.
+  Lemma keq_refl m : keq m m.
+  Proof. split; [apply peq_refl|repeat split]. Qed.
+  Lemma keq_trans m1 m2 m3 : keq m1 m2 -> keq m2 m3 -> keq m1 m3.
+  Proof.
+    intros (A & B & C & D & E) (A' & B' & C' & D' & E').
+    split; [eapply peq_trans; eauto|]. repeat split; congruence.
+  Qed.
+  Lemma keq_upd_node (m : mdd) id f : (forall n, core_eq n (f n)) -> keq m (upd_node m id f).
+  Proof. intros Hf. split; [apply peq_upd_node; exact Hf|]. repeat split. Qed.
+  Lemma keq_fold {B} (f : mdd -> B -> mdd) (l : list B) (m : mdd) :
+    (forall m x, keq m (f m x)) -> keq m (fold_left f l m).
+  Proof.
+    intros Hf. revert m; induction l as [|x l IH]; intros m; simpl.
+    - apply keq_refl.
+    - eapply keq_trans; [apply Hf|apply IH].
+  Qed.
+  Lemma ceq_keq m m' :
+    ceq m m' -> m_best m' = m_best m -> m_best_exact m' = m_best_exact m -> keq m m'.
+  Proof. intros (A & B & C & D & E & F) H1 H2. split; [exact A|]. repeat split; auto. Qed.
+
+  Lemma cache_update_keq (m : mdd) s dp v e : keq m (cache_update st_eqb inp m s dp v e).
+  Proof.
+    apply ceq_keq; [apply cache_update_ceq| |];
+    unfold cache_update; destruct (ci_use_cache inp); try reflexivity;
+    destruct (update_threshold st_eqb (m_cache (add_log m (EvCacheUpd s dp v e))) s dp v e); reflexivity.
+  Qed.
+
+  Lemma compute_local_bounds_keq (m : mdd) : keq m (compute_local_bounds inp m).
+  Proof.
+    unfold compute_local_bounds. cbv zeta.
+    match goal with |- context [if ?c then _ else _] => destruct c end; [|apply keq_refl].
+    eapply keq_trans; [|apply keq_fold].
+    - apply keq_fold. intros a id. apply keq_upd_node. intros n.
+      eapply core_eq_trans; [|apply core_eq_set_vbot]. apply core_eq_set_flags_nc; reflexivity.
+    - intros a id. destruct (f_marked (n_flags (gn a id))); [|apply keq_refl].
+      apply keq_fold. intros a' eid. apply keq_upd_node. intros n.
+      eapply core_eq_trans; [|apply core_eq_set_vbot]. apply core_eq_set_flags_nc; reflexivity.
+  Qed.
+
+  Lemma maybe_update_cache_keq (m : mdd) id : keq m (maybe_update_cache st_eqb inp m id).
+  Proof.
+    unfold maybe_update_cache. destruct (n_theta (gn m id)); [|apply keq_refl].
+    destruct (f_above (n_flags (gn m id))); [apply cache_update_keq|apply keq_refl].
+  Qed.
+
+  Lemma compute_thresholds_keq (m : mdd) : keq m (compute_thresholds st_eqb inp m).
+  Proof.
+    unfold compute_thresholds. cbv zeta.
+    destruct (is_relaxed_ct (ci_type inp) || m_is_exact m); [|apply keq_refl].
+    match goal with |- keq m (let '(m0, bk) := ?X in _) =>
+      assert (Hx : keq m (fst X)); [|destruct X as [m1 bk]; cbn [fst] in Hx] end.
+    { destruct (m_best_exact m) as [be|]; cbn [fst]; [|apply keq_refl].
+      apply keq_fold. intros a id.
+      match goal with |- context [if ?c then _ else _] => destruct c end; [|apply keq_refl].
+      apply keq_upd_node. intros n. apply core_eq_set_theta. }
+    eapply keq_trans; [exact Hx|].
+    apply keq_fold. intros a id.
+    destruct (f_deleted (n_flags (gn a id))); [apply keq_refl|].
+    match goal with |- keq a (match n_theta (gn ?X id) with _ => _ end) =>
+      assert (Hy : keq a X); [|set (a2 := X) in *] end.
+    { destruct (negb (f_cache (n_flags (gn a id)))); [|apply keq_refl].
+      eapply keq_trans; [|apply maybe_update_cache_keq].
+      repeat match goal with |- context [if ?c then _ else _] => destruct c end;
+        try apply keq_refl; apply keq_upd_node; intros n; apply core_eq_set_theta. }
+    eapply keq_trans; [exact Hy|].
+    destruct (n_theta (gn a2 id)); [|apply keq_refl].
+    apply keq_fold. intros a' eid. apply keq_upd_node. intros n. apply core_eq_set_theta.
+  Qed.
+  (* [beq]: as keq but the cutset may differ *)
+  Definition beq (m m' : mdd) : Prop :=
+    peq m m' /\ m_next m' = m_next m /\ m_best m' = m_best m /\ m_best_exact m' = m_best_exact m.
+  Lemma beq_refl m : beq m m.
+  Proof. split; [apply peq_refl|repeat split]. Qed.
+  Lemma beq_trans m1 m2 m3 : beq m1 m2 -> beq m2 m3 -> beq m1 m3.
+  Proof.
+    intros (A & B & C & D) (A' & B' & C' & D').
+    split; [eapply peq_trans; eauto|]. repeat split; congruence.
+  Qed.
+  Lemma keq_beq m m' : keq m m' -> beq m m'.
+  Proof. intros (A & B & C & D & E). split; auto. Qed.
+
+  Definition above_cutset_upd (n : node) : node := set_flags n (fl_set_above (fl_set_cutset (n_flags n) true) true).
+
+  Lemma lel_cutset_spec (m : mdd) (k : nat) :
+    beq m (lel_cutset m k) /\
+    m_cutset (lel_cutset m k) =
+      m_cutset m ++ match nth_error (m_layers m) k with Some ids => ids | None => [] end.
+  Proof.
+    unfold lel_cutset.
+    match goal with |- beq m (fold_left ?f ?l ?X) /\ _ => set (m1 := X) end.
+    match goal with |- beq m (fold_left ?f ?l m1) /\ _ => set (F := f); set (L := l) end.
+    assert (H1 : beq m m1 /\ m_cutset m1 = m_cutset m ++ match nth_error (m_layers m) k with Some ids => ids | None => [] end).
+    { unfold m1. destruct (nth_error (m_layers m) k) as [ids|].
+      - match goal with |- beq m (with_cutset ?Y _) /\ _ => assert (Hk : keq m Y); [|set (m0 := Y) in *] end.
+        { apply keq_fold. intros a id. apply keq_upd_node. intros n. apply core_eq_set_flags_nc; reflexivity. }
+        destruct Hk as (K1 & K2 & K3 & K4 & K5). split.
+        + split; [|repeat split; auto]. eapply peq_trans; [exact K1|]. apply peq_same_nodes; reflexivity.
+        + msimpl. rewrite K5. reflexivity.
+      - split; [apply beq_refl|]. rewrite app_nil_r. reflexivity. }
+    destruct H1 as [H1 H2].
+    assert (Hk : keq m1 (fold_left F L m1)).
+    { apply keq_fold. intros a id. apply keq_upd_node. intros n. apply core_eq_set_flags_nc; reflexivity. }
+    split.
+    - eapply beq_trans; [exact H1|apply keq_beq; exact Hk].
+    - destruct Hk as (_ & _ & _ & _ & K5). rewrite K5. exact H2.
+  Qed.
+
+  Lemma gn_out_of_range (m : mdd) id :
+    length (m_nodes m) <= id -> gn m id = default_node (sp_state (ci_root inp)).
+  Proof. intros H. unfold get_node. apply nth_overflow. exact H. Qed.
+
+  Lemma frontier_cutset_spec (m : mdd) :
+    Sinv m ->
+    beq m (frontier_cutset inp m true) /\
+    forall id, In id (m_cutset (frontier_cutset inp m true)) ->
+      In id (m_cutset m) \/ (id < length (m_nodes m) /\ fl_is_exact (n_flags (gn m id)) = true).
+  Proof.
+    intros HS. unfold frontier_cutset.
+    set (P := fun a : mdd => beq m a /\ forall id, In id (m_cutset a) ->
+                In id (m_cutset m) \/ (id < length (m_nodes m) /\ fl_is_exact (n_flags (gn m id)) = true)).
+    apply (fold_left_inv P).
+    - split; [apply beq_refl|]. intros id Hid. left; exact Hid.
+    - intros a id _ [Ha1 Ha2].
+      destruct (fl_is_exact (n_flags (gn a id))).
+      + split.
+        * eapply beq_trans; [exact Ha1|]. apply keq_beq. apply keq_upd_node.
+          intros n. apply core_eq_set_flags_nc; reflexivity.
+        * exact Ha2.
+      + assert (Hinb : forall eid, In eid (n_inb (gn a id)) -> e_from (get_edge m eid) < length (m_nodes m)).
+        { intros eid Hin. destruct Ha1 as ((_ & _ & _ & A4) & _).
+          destruct (A4 id) as (_ & _ & _ & c4 & _). rewrite <- c4 in Hin.
+          destruct (Nat.lt_ge_cases id (length (m_nodes m))) as [Hlt|Hge].
+          - apply (S_efrom _ HS). apply (S_nodes _ HS id Hlt). exact Hin.
+          - rewrite gn_out_of_range in Hin by exact Hge. destruct Hin. }
+        apply (fold_left_inv P).
+        * split; assumption.
+        * intros a' eid Hin [Hb1 Hb2].
+          pose proof Hb1 as ((B1 & B2 & B3 & B4) & B5 & B6 & B7).
+          rewrite (ge_edges_eq m a' eid B1).
+          set (src := e_from (get_edge m eid)).
+          destruct (fl_is_exact (n_flags (gn a' src)) && negb (f_cutset (n_flags (gn a' src)))) eqn:Ec;
+            [|split; assumption].
+          apply andb_true_iff in Ec. destruct Ec as [Ec _].
+          rewrite <- (core_eq_is_exact _ _ (B4 src)) in Ec.
+          split.
+          -- eapply beq_trans; [exact Hb1|].
+             eapply beq_trans; [|apply keq_beq; apply keq_upd_node; intros n; apply core_eq_set_flags_nc; reflexivity].
+             split; [apply peq_same_nodes; reflexivity|repeat split].
+          -- intros x Hx. msimpl_in Hx. apply in_app_or in Hx. destruct Hx as [Hx|[<-|[]]].
+             ++ apply Hb2; exact Hx.
+             ++ right. split; [apply Hinb; exact Hin|exact Ec].
+  Qed.
+
+  Definition cutset_ok (m : mdd) : Prop :=
+    forall id, In id (m_cutset m) -> id < length (m_nodes m) /\ fl_is_exact (n_flags (gn m id)) = true.
+
+  Lemma finalize_cutset_spec (m : mdd) :
+    Sinv m -> Xs m -> beq m (finalize_cutset inp m) /\ cutset_ok (finalize_cutset inp m).
+  Proof.
+    intros HS HX.
+    assert (Hco : forall m', beq m m' ->
+              (forall id, In id (m_cutset m') ->
+                 In id (m_cutset m) \/ (id < length (m_nodes m) /\ fl_is_exact (n_flags (gn m id)) = true)) ->
+              cutset_ok m').
+    { intros m' ((A1 & A2 & A3 & A4) & _) H id Hid. destruct (H id Hid) as [Hc|[H1 H2]].
+      - rewrite (X_cutset _ _ HX) in Hc. destruct Hc.
+      - rewrite A3. rewrite <- (core_eq_is_exact _ _ (A4 id)). auto. }
+    unfold finalize_cutset. cbv zeta.
+    set (m1 := match m_lel m with
+               | None => with_lel_exact m (Some (length (m_layers m))) (m_is_exact m)
+               | Some _ => m end).
+    assert (H1 : beq m m1 /\ m_cutset m1 = m_cutset m /\ m_layers m1 = m_layers m /\ m_nodes m1 = m_nodes m /\
+                 m_lel m1 = match m_lel m with None => Some (length (m_layers m)) | Some k => Some k end).
+    { unfold m1. destruct (m_lel m) as [k|] eqn:El.
+      - split; [apply beq_refl|]. repeat split. exact El.
+      - split; [|repeat split]. split; [apply peq_same_nodes; reflexivity|repeat split]. }
+    destruct H1 as (H1 & H2 & H3 & H4 & H5).
+    assert (Hsame : beq m m1 /\ cutset_ok m1).
+    { split; [exact H1|]. apply Hco; [exact H1|]. intros id Hid. rewrite H2 in Hid. left; exact Hid. }
+    assert (HS1 : Sinv m1).
+    { destruct H1 as (Hp & Hn & _). eapply Sinv_peq; [exact Hp| |exact HS].
+      intros id Hid. rewrite Hn in Hid. rewrite H4. apply (S_next _ HS); exact Hid. }
+    destruct Hclean as [Hf|Hf]; rewrite Hf.
+    - (* last exact layer *)
+      destruct (is_relaxed_ct (ci_type inp) || m_is_exact m); [|exact Hsame].
+      destruct (lel_cutset_spec m1 (opt_default 0 (m_lel m1))) as [L1 L2].
+      split; [eapply beq_trans; eauto|].
+      apply Hco; [eapply beq_trans; eauto|].
+      intros id Hid. rewrite L2, H2 in Hid. apply in_app_or in Hid. destruct Hid as [Hid|Hid]; [left; exact Hid|].
+      right. rewrite H3, H5 in Hid.
+      destruct (m_lel m) as [k|] eqn:El; cbn [opt_default] in Hid.
+      + destruct (nth_error (m_layers m) k) as [ids|] eqn:En; [|destruct Hid]. split.
+        * eapply (X_layers _ _ HX); eauto. eapply nth_error_In; eauto.
+        * eapply (X_lel_some _ _ HX); eauto.
+      + destruct (nth_error (m_layers m) (length (m_layers m))) as [ids|] eqn:En; [|destruct Hid].
+        exfalso. assert (length (m_layers m) < length (m_layers m)); [|lia].
+        apply nth_error_Some. rewrite En. discriminate.
+    - (* frontier *)
+      destruct (is_relaxed_ct (ci_type inp) || m_is_exact m); [|exact Hsame].
+      destruct (frontier_cutset_spec m1 HS1) as [F1 F2].
+      split; [eapply beq_trans; eauto|].
+      apply Hco; [eapply beq_trans; eauto|].
+      intros id Hid. destruct (F2 id Hid) as [Hc|[G1 G2]].
+      + left. rewrite <- H2. exact Hc.
+      + right. rewrite H4 in G1. rewrite (gn_nodes_eq m m1 id H4) in G2. auto.
+  Qed.
+  Lemma clean_chain_peq m m' id : peq m m' -> clean_chain m id -> clean_chain m' id.
+  Proof.
+    intros (A1 & A2 & A3 & A4) Hcc. induction Hcc as [Hr Hb|id eid Hr Hb Hcc IH].
+    - destruct (A4 0) as (_ & _ & c3 & _ & _ & c6 & _). apply cc_root; congruence.
+    - destruct (A4 id) as (_ & _ & c3 & _ & _ & c6 & _).
+      apply (cc_step m' id eid); [congruence|congruence|].
+      rewrite (ge_edges_eq m m' eid A1). exact IH.
+  Qed.
+
+  Lemma pick_In tb cands b : pick tb cands = Some b -> In b cands.
+  Proof. unfold pick. destruct cands as [|c cs]; [discriminate|]. apply nth_error_In. Qed.
+
+  Lemma argmax_candidates_In (m : mdd) ids b : In b (argmax_candidates inp m ids) -> In b ids.
+  Proof.
+    unfold argmax_candidates. destruct (zmax_list _); [|intros []]. intros H. apply filter_In in H. tauto.
+  Qed.
+
+  Lemma finalize_layers_spec (m : mdd) :
+    Sinv m -> Xs m ->
+    Sinv (finalize_layers inp m) /\ Xs (finalize_layers inp m) /\ peq m (finalize_layers inp m) /\
+    m_next (finalize_layers inp m) = m_next m.
+  Proof.
+    intros HS HX. unfold finalize_layers. cbv zeta. rewrite not_pooled.
+    destruct (m_next m) as [|c cs] eqn:En.
+    - split; [exact HS|]. split; [exact HX|]. split; [apply peq_refl|exact En].
+    - set (m' := push_layer m _ _).
+      assert (Hp : peq m m') by (apply peq_same_nodes; reflexivity).
+      split; [|split; [|split]].
+      + eapply Sinv_peq; [exact Hp| |exact HS]. intros id Hid. apply (S_next _ HS). exact Hid.
+      + apply Xg_push_layer; [exact HX|apply Nat.le_refl|]. intros id Hid. apply in_seq in Hid.
+        change (id < length (m_nodes m)). lia.
+      + exact Hp.
+      + exact En.
+  Qed.
+
+  (* the statement asked for: [finalize] does not change n_state, n_vtop, n_best, n_inb, the exact and
+     relaxed flags, n_depth of any node, nor m_edges, m_path, the number of nodes, m_next *)
+  Theorem finalize_spec (tb tb2 : nat) (m : mdd) :
+    Sinv m -> Xs m ->
+    peq m (finalize st_eqb inp tb tb2 m) /\
+    m_next (finalize st_eqb inp tb tb2 m) = m_next m /\
+    Sinv (finalize st_eqb inp tb tb2 m) /\
+    (forall b, m_best (finalize st_eqb inp tb tb2 m) = Some b ->
+               b < length (m_nodes (finalize st_eqb inp tb tb2 m))) /\
+    (forall b, m_best_exact (finalize st_eqb inp tb tb2 m) = Some b ->
+               b < length (m_nodes (finalize st_eqb inp tb tb2 m)) /\
+               clean_chain (finalize st_eqb inp tb tb2 m) b) /\
+    cutset_ok (finalize st_eqb inp tb tb2 m) /\
+    (ci_type inp <> Relaxed -> forall id, id < length (m_nodes (finalize st_eqb inp tb tb2 m)) ->
+       fl_is_exact (n_flags (gn (finalize st_eqb inp tb tb2 m) id)) = true).
+  Proof.
+    intros HS HX. unfold finalize.
+    destruct (finalize_layers_spec m HS HX) as (S1 & X1 & P1 & N1).
+    set (m1 := finalize_layers inp m) in *.
+    (* find_best_node *)
+    set (m2 := find_best_node inp tb tb2 m1).
+    assert (P2 : peq m1 m2) by (apply peq_same_nodes; reflexivity).
+    assert (S2 : Sinv m2).
+    { eapply Sinv_peq; [exact P2| |exact S1]. intros id Hid. apply (S_next _ S1). exact Hid. }
+    assert (X2 : Xs m2) by (eapply Xg_peq; [exact P2|reflexivity|reflexivity|reflexivity|exact X1]).
+    assert (B2 : forall b, m_best m2 = Some b -> b < length (m_nodes m2)).
+    { intros b Hb. unfold m2, find_best_node in Hb. msimpl_in Hb.
+      apply pick_In in Hb. apply argmax_candidates_In in Hb. apply (S_next _ S1). exact Hb. }
+    assert (BE2 : forall b, m_best_exact m2 = Some b ->
+                    b < length (m_nodes m2) /\ fl_is_exact (n_flags (gn m2 b)) = true).
+    { intros b Hb. unfold m2, find_best_node in Hb. msimpl_in Hb.
+      apply pick_In in Hb. apply argmax_candidates_In in Hb. apply filter_In in Hb. destruct Hb as [Hb1 Hb2].
+      split; [apply (S_next _ S1); exact Hb1|exact Hb2]. }
+    (* finalize_exact *)
+    set (m3 := finalize_exact inp m2).
+    assert (P3 : peq m2 m3) by (apply peq_same_nodes; reflexivity).
+    assert (S3 : Sinv m3).
+    { eapply Sinv_peq; [exact P3| |exact S2]. intros id Hid. apply (S_next _ S2). exact Hid. }
+    assert (X3 : Xs m3) by (eapply Xg_peq; [exact P3|reflexivity|reflexivity|reflexivity|exact X2]).
+    assert (B3 : forall b, m_best m3 = Some b -> b < length (m_nodes m2)) by exact B2.
+    assert (BE3 : forall b, m_best_exact m3 = Some b -> b < length (m_nodes m2) /\ clean_chain m2 b).
+    { intros b Hb. unfold m3, finalize_exact in Hb. cbv zeta in Hb. msimpl_in Hb.
+      destruct (is_relaxed_ct (ci_type inp) && has_exact_best_path inp (S (length (m_nodes m2))) m2 (m_best m2)) eqn:Eb.
+      - apply andb_true_iff in Eb. destruct Eb as [_ Eb]. rewrite Hb in Eb.
+        pose proof (B2 b Hb) as Hlt. split; [exact Hlt|].
+        eapply Sinv_ebp_clean_chain; [exact S2| |exact Hlt|exact Eb]. lia.
+      - destruct (BE2 b Hb) as [Hlt Hex]. split; [exact Hlt|].
+        apply Sinv_exact_flag_clean_chain; auto. }
+    (* finalize_cutset, local bounds, thresholds *)
+    destruct (finalize_cutset_spec m3 S3 X3) as [Q4 C4].
+    set (m4 := finalize_cutset inp m3) in *.
+    pose proof (compute_local_bounds_keq m4) as K5.
+    set (m5 := compute_local_bounds inp m4) in *.
+    pose proof (compute_thresholds_keq m5) as K6.
+    set (m6 := compute_thresholds st_eqb inp m5) in *.
+    assert (Q6 : beq m3 m6).
+    { eapply beq_trans; [exact Q4|]. apply keq_beq. eapply keq_trans; eauto. }
+    assert (K46 : keq m4 m6) by (eapply keq_trans; eauto).
+    destruct Q6 as (P6 & N6 & Bb6 & Be6).
+    assert (P26 : peq m2 m6) by (eapply peq_trans; [exact P3|exact P6]).
+    assert (P06 : peq m m6) by (eapply peq_trans; [exact P1|]; eapply peq_trans; [exact P2|exact P26]).
+    pose proof P26 as (_ & _ & L26 & _).
+    assert (Nx6 : m_next m6 = m_next m) by (rewrite N6; exact N1).
+    split; [exact P06|]. split; [exact Nx6|].
+    split; [|split; [|split; [|split]]].
+    - eapply Sinv_peq; [exact P06| |exact HS]. intros id Hid. rewrite Nx6 in Hid.
+      destruct P06 as (_ & _ & L & _). rewrite L. apply (S_next _ HS). exact Hid.
+    - intros b Hb. rewrite Bb6 in Hb. rewrite L26. apply B3; exact Hb.
+    - intros b Hb. rewrite Be6 in Hb. destruct (BE3 b Hb) as [G1 G2]. rewrite L26.
+      split; [exact G1|]. eapply clean_chain_peq; eauto.
+    - destruct K46 as ((_ & _ & L & A4) & _ & _ & _ & Kc). intros id Hid. rewrite Kc in Hid.
+      destruct (C4 id Hid) as [G1 G2]. rewrite L. rewrite <- (core_eq_is_exact _ _ (A4 id)). auto.
+    - intros Ht id Hid. destruct P06 as (_ & _ & L & A4). rewrite <- (core_eq_is_exact _ _ (A4 id)).
+      apply (X_exact_nr _ _ HX Ht). rewrite <- L. exact Hid.
+  Qed.
+
+  Corollary finalize_preserves_paths (tb tb2 : nat) (m : mdd) :
+    Sinv m -> Xs m ->
+    m_edges (finalize st_eqb inp tb tb2 m) = m_edges m /\
+    m_path (finalize st_eqb inp tb tb2 m) = m_path m /\
+    length (m_nodes (finalize st_eqb inp tb tb2 m)) = length (m_nodes m) /\
+    forall id,
+      n_state (gn (finalize st_eqb inp tb tb2 m) id) = n_state (gn m id) /\
+      n_vtop (gn (finalize st_eqb inp tb tb2 m) id) = n_vtop (gn m id) /\
+      n_best (gn (finalize st_eqb inp tb tb2 m) id) = n_best (gn m id) /\
+      n_inb (gn (finalize st_eqb inp tb tb2 m) id) = n_inb (gn m id) /\
+      f_exact (n_flags (gn (finalize st_eqb inp tb tb2 m) id)) = f_exact (n_flags (gn m id)) /\
+      f_relaxed (n_flags (gn (finalize st_eqb inp tb tb2 m) id)) = f_relaxed (n_flags (gn m id)) /\
+      n_depth (gn (finalize st_eqb inp tb tb2 m) id) = n_depth (gn m id).
+  Proof.
+    intros HS HX. destruct (finalize_spec tb tb2 m HS HX) as ((A1 & A2 & A3 & A4) & _).
+    split; [exact A1|]. split; [exact A2|]. split; [exact A3|].
+    intros id. destruct (A4 id) as (c1 & c2 & c3 & c4 & c5 & c6 & c7). repeat split; auto.
+  Qed.
+(*PART13*)
 End Exact.
